@@ -27,6 +27,14 @@ def load(ids):
         m = dict(id="seeded-" + meta["id"], property=[meta["breaks_property"]], patch=os.path.join(os.path.dirname(f), "patch.diff"), notest=True)
         if not ids or m["id"] in ids or meta["breaks_property"] in ids:
             ms.append(m)
+    # behaviour-preserving refactorings written by independent sub-agents (see /verif/refactors/*/notes.md):
+    # every property's check must stay silent on each of them
+    allp = ["C%02d" % i for i in range(1, 18)]
+    for f in sorted(glob.glob(os.path.join(VERIF, "refactors", "*", "patch.diff"))):
+        rid = "refactor-" + os.path.basename(os.path.dirname(f))
+        wanted = [p for p in allp if p in ids]
+        if not ids or rid in ids or wanted:
+            ms.append(dict(id=rid, property=wanted or allp, patch=f, notest=True, kind="refactor"))
     return ms
 
 def run_one(m, mode):
